@@ -425,8 +425,12 @@ def textFromEventDict(eventDict: EventDict) -> Optional[str]:
                 why = "Unhandled Error"
             try:
                 traceback = cast(failure.Failure, eventDict["failure"]).getTraceback()
-            except Exception as e:
-                traceback = "(unable to obtain traceback): " + str(e)
+            except KeyboardInterrupt:
+                raise
+            except BaseException as e:
+                traceback = "(unable to obtain traceback): " + reflect.safe_str(e)
+            if not isinstance(traceback, str):
+                traceback = reflect.safe_str(traceback)
             text = why + "\n" + traceback
         elif "format" in eventDict:
             text = _safeFormat(eventDict["format"], eventDict)
